@@ -1075,6 +1075,8 @@ func verifC11Case(line string) (out string) {
 		return verifC11Disc(f)
 	case f[0] == "load" && len(f) == 3:
 		return verifC11Load(f)
+	case f[0] == "abuf" && len(f) == 3:
+		return verifC11Abuf(f)
 	}
 	return "bad-op"
 }
